@@ -51,18 +51,27 @@ class TealBlock(ABC):
             # using a list instead of a set as TealBlock is not hashable and PyTEAL programs should be short anyway
             visited = []
 
-        if parent is not None:
-            count = 0
-            for block in self.incoming:
-                if parent is block:
-                    count += 1
-            assert count == 1
+        # iterative depth-first walk (same visiting order as the recursive formulation), so that
+        # long programs do not exhaust the interpreter's recursion limit
+        stack = [iter([(parent, self)])]
+        while len(stack) > 0:
+            try:
+                curParent, cur = next(stack[-1])
+            except StopIteration:
+                stack.pop()
+                continue
 
-        if all(self is not b for b in visited):
-            # if the block was not already visited
-            visited.append(self)
-            for block in self.getOutgoing():
-                block.validateTree(self, visited)
+            if curParent is not None:
+                count = 0
+                for block in cur.incoming:
+                    if curParent is block:
+                        count += 1
+                assert count == 1
+
+            if all(cur is not b for b in visited):
+                # if the block was not already visited
+                visited.append(cur)
+                stack.append(iter([(cur, block) for block in cur.getOutgoing()]))
 
     def addIncoming(
         self,
@@ -79,14 +88,25 @@ class TealBlock(ABC):
             # using a list instead of a set as TealBlock is not hashable and PyTEAL programs should be short anyway
             visited = []
 
-        if parent is not None and all(parent is not b for b in self.incoming):
-            self.incoming.append(parent)
+        # iterative depth-first walk (same visiting order as the recursive formulation), so that
+        # long programs do not exhaust the interpreter's recursion limit
+        stack = [iter([(parent, self)])]
+        while len(stack) > 0:
+            try:
+                curParent, cur = next(stack[-1])
+            except StopIteration:
+                stack.pop()
+                continue
 
-        if all(self is not b for b in visited):
-            # if the block was not already visited
-            visited.append(self)
-            for b in self.getOutgoing():
-                b.addIncoming(self, visited)
+            if curParent is not None and all(
+                curParent is not b for b in cur.incoming
+            ):
+                cur.incoming.append(curParent)
+
+            if all(cur is not b for b in visited):
+                # if the block was not already visited
+                visited.append(cur)
+                stack.append(iter([(cur, b) for b in cur.getOutgoing()]))
 
     def validateSlots(
         self,
